@@ -1,5 +1,8 @@
 import ChiaModel.Props.C02
 #print axioms ChiaModel.C02.conservation
 #print axioms ChiaModel.C02.accepted_invariants
+#print axioms ChiaModel.C02.native_invariants
+#print axioms ChiaModel.C02.spendbundle_invariants
+#print axioms ChiaModel.C02.legacy_invariants
 #print axioms ChiaModel.C11.canon_unique
 #print axioms ChiaModel.C11.coinIdAmount_canon
